@@ -629,6 +629,17 @@ func dischargeAll(obls []*Obligation, dir string, timeout time.Duration, par int
 	// racing up to four solvers at the end of the ladder) a rung that needs 3 s alone can miss its limit. An
 	// obligation left undecided is tried again alone with every rung given four times as long; a result of sat is
 	// never retried.
+	undecided := 0
+	for _, o := range obls {
+		if !o.Static && o.Kind != "cover" && (o.Result == "timeout" || o.Result == "unknown") && !noSecondPass[o.Name] {
+			undecided++
+		}
+	}
+	if undecided == 0 || undecided > 2 {
+		// scheduling noise leaves one or two obligations undecided, not a handful: a larger number is a real failure
+		// (or a real change) and is reported as it stands
+		return
+	}
 	rungScale = 4
 	defer func() { rungScale = 1 }()
 	retried := 0
